@@ -477,6 +477,7 @@ func (e *env) runDownloadN(sc *scenario, peer string, f fault, batch int, remote
 		}
 		go func() {
 			_ = remote.comm.Protocols()[0].Run(p2p.NewPeer(discover.NodeID{0x20, byte(seq >> 8), byte(seq)}, "local", nil), re)
+			re.Close() // the protocol handler returned: the p2p server drops the connection
 			close(remoteDone)
 		}()
 	} else {
